@@ -461,14 +461,19 @@ sch_yield_point(void) {
     point(PT_YIELD);
 }
 
-/* hook H3 in db_impl.c */
+/* hooks H3 (db_impl.c, kinds 0/1) and H4 (skiplist.c, kind 2 = release store that publishes a
+ * node, kind 3 = acquire load).  cfg.hook_points is a mask: 1 = H3, 2 = H4 stores, 4 = H4 loads */
 void lcdb_verif_point(const void *obj, int kind);
 void
 lcdb_verif_point(const void *obj, int kind) {
-  VH_ENTER;
-  (void)obj; (void)kind;
-  if (sch_active && cfg.hook_points && cur != HOME)
+  int bit = (kind <= 1) ? 1 : (kind == 2 ? 2 : 4);
+  (void)obj;
+  if (!sch_active || cur == HOME || !(cfg.hook_points & bit))
+    return;
+  {
+    VH_ENTER;
     point(PT_HOOK);
+  }
 }
 
 /* ------------------------------------------------------------------ */
